@@ -77,6 +77,7 @@ int main(int argc, char **argv)
     FILE *fi = fopen(argv[1], "r");
     if (!fi) { perror(argv[1]); return 3; }
     nb = atoi(argv[3]);
+    long const log_every = argc > 6 ? atol(argv[6]) : 1;
     if (nb > 64) { nb = 64; }
     char name[512];
     for (int i = 0; i < nb; ++i)
@@ -109,7 +110,9 @@ int main(int argc, char **argv)
                        p.sum, p.out, p.var, p.fdb, p.err);
             }
         }
-        log_step((int)v[1], (double)v[2], (double)v[3], &pre, &p, ret, 0);
+        /* every edge is compared natively above; for very large state graphs only every log_every-th one is also
+           written out for the TLC trace validation */
+        if (n_edges % log_every == 0) { log_step((int)v[1], (double)v[2], (double)v[3], &pre, &p, ret, 0); }
     }
     /* seeded random integer histories (longer than the exhaustive bound) */
     rng_s = 0x9E3779B97F4A7C15ull ^ (strtoull(argv[4], 0, 10) * 1000003ull);
